@@ -10,7 +10,9 @@ package main
 
 import (
 	"flag"
+
 	"fmt"
+	"github.com/vektah/gqlparser/v2"
 	"os"
 	"strings"
 
@@ -46,7 +48,7 @@ func main() {
 			v := c.Judge(string(b), []byte(*vars))
 			c.GW.Close()
 			if v.Invalid == "" {
-				fmt.Printf("%d valid classes=%v\n", i, v.Classes)
+				fmt.Printf("%d valid classes=%v incomparable_type_condition_chains=%s\n", i, v.Classes, chainFact(c, string(b)))
 			}
 		}
 		return
@@ -115,6 +117,7 @@ func main() {
 		if len(v.Classes) == 0 {
 			fmt.Println("HELD")
 		}
+		fmt.Println("incomparable_type_condition_chains =", chainFact(c, string(b)))
 		show(v)
 		return
 	}
@@ -125,7 +128,7 @@ func main() {
 		}
 		text := op.Doc.String()
 		v := c.Judge(text, triage.VarsJSON(op.Vals))
-		fmt.Printf("== seed=%d idx=%d k=%d len=%d union_frag=%v abstract_on_object=%v invalid=%q classes=%d\n", *seed, *idx, op.K, len(text), gen.UnionFragmentInNonUnionParent(c.L.Super, op.Doc), gen.AbstractFragmentOnObjectParent(c.L.Super, op.Doc), v.Invalid, len(v.Classes))
+		fmt.Printf("== seed=%d idx=%d k=%d len=%d union_frag=%v abstract_on_object=%v invalid=%q chains=%s classes=%d\n", *seed, *idx, op.K, len(text), gen.UnionFragmentInNonUnionParent(c.L.Super, op.Doc), gen.AbstractFragmentOnObjectParent(c.L.Super, op.Doc), v.Invalid, chainFact(c, text), len(v.Classes))
 		for _, cl := range v.Classes {
 			fmt.Printf("  CLASS %s\n", cl)
 		}
@@ -141,6 +144,15 @@ func main() {
 			show(m.V)
 		}
 	}
+}
+
+// chainFact evaluates the input fact triage.IncomparableTypeConditionChains on an operation text.
+func chainFact(c *triage.Case, text string) string {
+	qd, errs := gqlparser.LoadQuery(c.SuperGql, text)
+	if errs != nil || len(qd.Operations) == 0 {
+		return "n/a"
+	}
+	return fmt.Sprint(triage.IncomparableTypeConditionChains(c.SuperGql, qd, qd.Operations[0]))
 }
 
 func trunc(s string, n int) string {
